@@ -21,13 +21,14 @@ const (
 	FGroup                  // db.Where(db.Where(A).Or(B)) grouped builder
 	FPKSlice                // []int: primary key IN
 	FPKScalar               // inline only: Find(&x, 3)
+	FColValue               // Where("col", value): column name + one value (scalar, nil, slice, Valuer slice)
 	FEmptyStr               // "" (no condition)
 	FEmptySlice             // []int{} (no condition)
 )
 
 var formNames = map[Form]string{
 	FRawQ: "raw-q", FRawLit: "raw-literal", FNamed: "named", FMap: "map", FStruct: "struct", FClause: "clause",
-	FGroup: "group", FPKSlice: "pk-slice", FPKScalar: "pk-scalar", FEmptyStr: "empty-string", FEmptySlice: "empty-slice",
+	FGroup: "group", FPKSlice: "pk-slice", FPKScalar: "pk-scalar", FColValue: "col-value", FEmptyStr: "empty-string", FEmptySlice: "empty-slice",
 }
 
 func (f Form) String() string { return formNames[f] }
